@@ -3,6 +3,7 @@ import itertools
 
 from .. import dev
 from ..core import Harness
+from . import c09
 
 RUST = r'''
 #[cfg(kani)]
@@ -95,6 +96,7 @@ mod c13 {
         vk_assert!(sdc(held_cmd(t1), c1) && sdc(held_cmd(t2), c2) && sdc(held_cmd(ts), c3), "C13.differential.commands_untouched");
         vk_end!();
     }
+@TERMINAL_READS@
     // ---- chain: device A side 2 linked to device B side 1; a command issued at A's side 1 reaches B's side 2, mapped by
     // both devices in order, once A then B have been updated. kinds: 0 inverter, 1 gear train
     #[kani::proof]
@@ -138,9 +140,11 @@ def spec(ctx):
     ]
     hs += [Harness("c13_axle_%d" % n, "e2", unwind=8, skeletons=list(itertools.product([0, 1], repeat=n)), clause="axle with %d terminals: every subset holding a command" % n) for n in ax]
     hs.append(Harness("c13_differential", "e2", unwind=4, skeletons=[(m,) + p for m in range(4) for p in itertools.product([0, 1], repeat=3)], clause="differential: commands untouched in every mode / presence pattern"))
+    hs.append(Harness("c13_terminal_reads", "e2", timeout=300, skeletons=list(itertools.product([0, 1], repeat=5)),
+                      clause="a terminal's command read is the newer of its own and its partner's command (every presence pattern, linked or not): what a device sees at a linked terminal"))
     hs.append(Harness("c13_chain", "e2", unwind=4, split=True, skeletons=[(0, 0), (0, 1), (1, 0)], timeout=200, clause="chain of two devices (inverter / gear train in every order) joined by connected terminals"))
     return {
-        "crates": [{"rust": RUST, "harnesses": hs}],
+        "crates": [{"rust": RUST.replace("@TERMINAL_READS@", c09.READS.replace("fn c09_pair_reads", "fn c13_terminal_reads").replace('"C09.pair.', '"C13.terminal.')), "harnesses": hs}],
         "functions": ["Invert::update", "GearTrain::update", "Axle::update", "Differential::update (command part)", "Getter<Command> for Terminal", "connect", "Command Mul/Div/Neg, Datum<Command> ops"],
         "bounds": {"device state": "ONE update from arbitrary terminal contents (every presence pattern, all values, all timestamps) - update is a function of the terminal contents only, so this covers any number of rounds of new commands",
                    "axle sizes": list(ax), "chains": "2 devices, every combination of inverter / gear train"},
